@@ -149,6 +149,11 @@ def run(obl, twin_only=False):
                     return out
                 out["twin"] = "unreached"
                 out["message"] = "; ".join(m.message for m in an.messages)[:500]
+                # is the PRECONDITION itself satisfiable? (a body-free twin: distinguishes an empty input space - e.g. a contradictory cube - from a body
+                # that aborts on every path)
+                tw0 = _conditions(lambda **kw: True, obl.params, obl.pre, lambda ns: False)
+                an0, st0, _, _ = _analyze(tw0, 15.0, obl.per_path_timeout)
+                out["pre_sat"] = any(m.state == MessageType.POST_FAIL for m in an0.messages)
         if twin_only:
             return out
         stubs.reset_tokens()
